@@ -98,6 +98,7 @@ def build_case_data(spec):
     xi = rng.uniform(0.006, 0.025, nm)
     if spec["setup"] == "single":
         y, Phi = synth(rng, spec["N"], spec["l"], fr, xi, spec["noise"], spec["kind"])
+        y = y * (spec.get("amp", 1.0) / y.std())   # record rms = amp (realistic small / unit / large amplitudes)
         return dict(data=y, fr=fr, xi=xi)
     # multi: one physical structure with n_ref fixed + roving channels, measured in several setups (independent records)
     nref = spec["nref"]
@@ -120,6 +121,7 @@ def build_case_data(spec):
         off += nmov
         y = q @ PhiAll[rows].T
         y = y + spec["noise"] * y.std() * rng.standard_normal(y.shape)
+        y = y * (spec.get("amp", 1.0) / y.std())
         # scatter the reference channels over arbitrary positions of the record (listed order = reference order)
         pos = rng.permutation(n_i)
         d = np.zeros_like(y)
@@ -789,6 +791,7 @@ def gen_cases(ctx, tier, per_alg):
             nmodes = int(rng.integers(2, 4))
             spec = dict(id="%s-%s-%d" % (tier, alg, v), tier=tier, alg=alg, setup="single" if single else "multi", seed=int(rng.integers(1, 2**31)),
                         nmodes=nmodes, kind="decay" if v % 4 == 3 else "random")
+            spec["amp"] = (1.0, 2e-3, 1.5e3)[v % 3]
             spec["fs"] = float(rng.choice([1.0, 10.0, 64.0, 100.0, 250.0]))
             spec["N"] = int(rng.choice([600, 800, 1024]))
             spec["noise"] = float(rng.choice([0.3, 0.6, 1.0])) if tier == "A" else float(rng.choice([0.01, 0.02, 0.05]))
@@ -821,13 +824,15 @@ def gen_cases(ctx, tier, per_alg):
                 else:
                     ks = [int(x) for x in rng.choice([-20, -11, -6, -3, -1, 1, 2, 5, 10, 17, 24], size=2, replace=False)]
                 kf = [int(x) for x in rng.choice([-6, -4, -2, 2, 4, 6], size=2, replace=False)]
-                spec["transforms"] = [dict(t="gain", g=float(2.0 ** ks[0])), dict(t="gain", g=-float(2.0 ** ks[1])), dict(t="fs", k=float(2.0 ** kf[0])),
-                                      dict(t="fs", k=float(2.0 ** kf[1]))]
+                # the two ends of the gain range [1e-6, 1e6] ALWAYS, on every class variant and record amplitude, plus one more
+                spec["transforms"] = [dict(t="gain", g=float(2.0 ** -20)), dict(t="gain", g=float(2.0 ** 20)), dict(t="gain", g=-float(2.0 ** ks[1])),
+                                      dict(t="fs", k=float(2.0 ** kf[0])), dict(t="fs", k=float(2.0 ** kf[1]))]
             else:
                 g = float(10 ** rng.uniform(-6, 6)) * (1 if rng.random() < 0.7 else -1)
                 k = float(10 ** rng.uniform(-2, 2))
-                spec["transforms"] = [dict(t="gain", g=g), dict(t="fs", k=k), dict(t="perm", seed=int(rng.integers(1, 2**31))),
-                                      dict(t="mix", seed=int(rng.integers(1, 2**31)))]
+                sg = -1.0 if rng.random() < 0.5 else 1.0
+                spec["transforms"] = [dict(t="gain", g=1e-6 * sg), dict(t="gain", g=-1e6 * sg), dict(t="gain", g=g), dict(t="fs", k=k),
+                                      dict(t="perm", seed=int(rng.integers(1, 2**31))), dict(t="mix", seed=int(rng.integers(1, 2**31)))]
             cases.append(spec)
     return cases
 
